@@ -304,6 +304,7 @@ func checkC18(c *Ctx, r *Report, tier string) {
 	round5(c, r, "C18")
 	round6(c, r, "C18")
 	round7(c, r, "C18")
+	round8(c, r, "C18")
 	r.Rule("C18.R1", "no blocking channel operation under a mutex the counterpart needs: for every send/receive that can block, executed while a mutex M may be held (own frame or a caller's), the code that the role performing the complementary operation runs between two such operations cannot acquire M (write/any) — otherwise sender and receiver wait for each other", 2)
 	r.Rule("C18.R2", "no role-level wait cycle: an apply tree never blocks sending to a loop that, inside its own loop body, waits without a deadline for a notification only that apply tree sends", 1)
 	r.Rule("C18.R3", "mutex discipline of the control plane: the may-hold-while-acquiring relation between mutex fields (own frame and callers) has no cycle, and no mutex is re-acquired on the same object while it may already be held (a recursive RLock deadlocks as soon as a writer queues in between)", 2)
